@@ -112,6 +112,7 @@ def expected(kind, n, moods, pruned):
 
 def run(ctx):
     model = ctx.model
+    shared.r_wire(ctx, "R15.wire")
     shared.r_lookup(ctx, "R15.lookup", ('mailboxes',))
     shared.r_startup(ctx, "R15.startup", ('nameplates', 'mailboxes'),
                      'usage records are removed or rewritten', usage=True)
